@@ -527,19 +527,20 @@ type ContractDB struct {
 	Axioms []*Axiom
 	Sorts  map[string]bool
 	Consts map[string]*CExpr
+	Ghosts map[string]*CType
 	Files  []string
 	SpecOrder []string
 }
 
 func NewContractDB() *ContractDB {
-	return &ContractDB{Funcs: map[string]*FuncContract{}, Specs: map[string]*SpecFunc{}, Sorts: map[string]bool{}, Consts: map[string]*CExpr{}}
+	return &ContractDB{Funcs: map[string]*FuncContract{}, Specs: map[string]*SpecFunc{}, Sorts: map[string]bool{}, Consts: map[string]*CExpr{}, Ghosts: map[string]*CType{}}
 }
 
 var clauseKeywords = map[string]bool{
 	"property": true, "spec": true, "axiom": true, "lemma": true, "func": true, "requires": true, "ensures": true,
 	"modifies": true, "pure": true, "inline": true, "assume": true, "loop": true, "invariant": true, "decreases": true,
 	"unroll": true, "logical": true, "sort": true, "noreturn": true, "nilable": true, "trusted": true, "alloc_bound": true,
-	"const": true, "opaque": true, "nilchecks": true, "let": true,
+	"const": true, "opaque": true, "nilchecks": true, "let": true, "ghost": true, "ghostfield": true,
 }
 
 type rawClause struct {
@@ -619,6 +620,34 @@ func (db *ContractDB) LoadFile(path string) error {
 			}
 		case "sort":
 			db.Sorts[strings.TrimSpace(rc.text)] = true
+		case "ghost", "ghostfield":
+			toks, err := lexExpr(rc.text)
+			if err != nil {
+				return fmt.Errorf("%s:%d: %v", path, rc.line, err)
+			}
+			p := &cparser{toks: toks, src: rc.text}
+			var gerr error
+			func() {
+				defer func() {
+					if r := recover(); r != nil {
+						gerr = fmt.Errorf("%s:%d: %v", path, rc.line, r)
+					}
+				}()
+				name := p.next().Lit
+				if rc.kw == "ghostfield" {
+					// Type.$name T   (lexed as Type . $ name? '$' is illegal in Go: written Type.name, stored as Type.$name)
+					for p.peek().Tok == token.PERIOD {
+						p.next()
+						name += "." + p.next().Lit
+					}
+					i := strings.LastIndexByte(name, '.')
+					name = name[:i] + ".$" + name[i+1:]
+				}
+				db.Ghosts[name] = p.parseType()
+			}()
+			if gerr != nil {
+				return gerr
+			}
 		case "const":
 			parts := strings.SplitN(rc.text, "=", 2)
 			if len(parts) != 2 {
